@@ -1,5 +1,6 @@
 import AndaVerif.Model.Hnsw
 import AndaVerif.Model.HnswStore
+import AndaVerif.Model.HnswMetric
 import AndaVerif.Drv.Util
 /-
 Driver of the C12 model. Lines:
@@ -26,6 +27,10 @@ Driver of the C12 model. Lines:
   dreset / dput <key> <blob id> <layer> <dimok> <finite> <lists> / dids <csv>|none /
   dmeta <entry id> <entry layer> <version> <maxLayer> <maxLayers> <removed csv> | dmeta none
   load <pick id> <pick layer>            → `ok <state>` | `err:load` ; the loaded index becomes the state
+  afterflush                             → in-memory effect of a complete flush + purge (`afterFlush`); prints the state
+  create <maxLayers>                     → state + durable objects right after `Hnsw::new` (empty index flushed)
+  closer <e|c|i|m> <q ints> <a ints> <b ints>   → exact-metric comparison `closer` (csv of integers)
+  cov                                    → which model branches were visited: `tag=count …`
   consts
 <state> = e=<id>,<layer> ml=<maxLayer> v=<version> pending=<0|1> ids=<csv> rm=<csv> dirty=<csv of dirty ids that have a live node> nodes=<id:layer:lists|…>
 -/
@@ -40,6 +45,8 @@ structure St where
   edits : List (Nat × Node) := []
   snap : Option Snapshot := none
   pendingW : List Write := []
+  /-- which branches of the model the run has visited -/
+  cov : List (String × Nat) := []
 
 def lookupDist (t : List (Nat × Nat)) (i : Nat) : Option Nat :=
   match t with
@@ -115,9 +122,45 @@ def writeTag : Write → String
   | .metaPut _ => "meta"
   | .del i => s!"d{i}"
 
+def bump (c : List (String × Nat)) (k : String) : List (String × Nat) :=
+  match c with
+  | [] => [(k, 1)]
+  | (k', n) :: r => if k' = k then (k', n + 1) :: r else (k', n) :: bump r k
+
+def St.hit (s : St) (ks : List String) : St := { s with cov := ks.foldl bump s.cov }
+
+def hasDangling (m : NodeMap) : Bool :=
+  m.any (fun p => p.2.nbrs.any (fun l => l.any (fun x => (getNode m x).isNone)))
+
+def searchTags (s : St) (k ef : Nat) (r : Except Err (List Ent)) : List String :=
+  let m := s.ix.nodes
+  let base := match r with
+    | .ok [] => "search:ok-empty"
+    | .ok _ => "search:ok-nonempty"
+    | .error (.notFound _) => "search:err-notfound"
+    | .error .distance => "search:err-distance"
+    | .error .invalid => "search:err-invalid"
+    | .error .dimension => "search:err-dimension"
+    | .error .fuel => "search:err-fuel"
+  let extra : List String :=
+    (if hasDangling m then ["search:graph-has-dangling-edge"] else []) ++
+    (if s.ix.entry.2 > 0 then ["search:descent-layers>0"] else []) ++
+    (if k > m.length then ["search:k>n"] else []) ++
+    (if k > maxEfSearch then ["search:k>MAX_EF"] else []) ++
+    (if ef < k then ["search:ef<k"] else []) ++
+    (if m.isEmpty then ["search:empty-index"] else []) ++
+    (match r with
+     | .ok res => (if res.length < k && res.length < m.length then ["search:fewer-than-k-and-n"] else []) ++
+                  (if (res.zip res.tail).any (fun p => p.1.1 == p.2.1) then ["search:tie-in-answer"] else [])
+     | _ => [])
+  base :: extra
+
+def parseMetric : String → Option Metric
+  | "e" => some .euclidean | "c" => some .cosine | "i" => some .innerProduct | "m" => some .manhattan | _ => none
+
 def step (s : St) (line : String) : St × String :=
   match words line with
-  | ["reset"] => ({}, "ok")
+  | ["reset"] => ({ cov := s.cov }, "ok")
   | ["node", id, layer, lists] =>
       match id.toNat?, layer.toNat?, parseLists lists with
       | some id, some layer, some ls =>
@@ -154,15 +197,18 @@ def step (s : St) (line : String) : St × String :=
       | none => (s, "bad-op")
   | ["search", k, ef] =>
       match k.toNat?, ef.toNat? with
-      | some k, some ef => (s, showRes (searchF32 s.ix.nodes s.ix.entry (lookupDist s.dist) k ef true true))
+      | some k, some ef =>
+          let r := searchF32 s.ix.nodes s.ix.entry (lookupDist s.dist) k ef true true
+          (s.hit (searchTags s k ef r), showRes r)
       | _, _ => (s, "bad-op")
   | ["search", k, ef, which, fin, dim] =>
       match k.toNat?, ef.toNat? with
       | some k, some ef =>
           let fin := fin == "1"
           let dim := dim == "1"
-          if which == "bf16" then (s, showRes (searchBf16 s.ix.nodes s.ix.entry (lookupDist s.dist) k ef fin dim))
-          else (s, showRes (searchF32 s.ix.nodes s.ix.entry (lookupDist s.dist) k ef fin dim))
+          let r := if which == "bf16" then searchBf16 s.ix.nodes s.ix.entry (lookupDist s.dist) k ef fin dim
+                   else searchF32 s.ix.nodes s.ix.entry (lookupDist s.dist) k ef fin dim
+          (s.hit ((if which == "bf16" then "search:entry-bf16" else "search:entry-f32") :: searchTags s k ef r), showRes r)
       | _, _ => (s, "bad-op")
   | ["layer", ep, layer, ef] =>
       match ep.toNat?, layer.toNat?, ef.toNat? with
@@ -172,7 +218,15 @@ def step (s : St) (line : String) : St × String :=
       match id.toNat?, pid.toNat?, pl.toNat? with
       | some id, some pid, some pl =>
           let r := remove s.ix id (pid, pl) (fun _ _ l => l)
-          ({ s with ix := r.1 }, s!"{r.2} {showState r.1 (rc != "1")}")
+          let tags : List String :=
+            if !r.2 then ["remove:absent"]
+            else (if s.ix.entry.1 == id then [if r.1.nodes.isEmpty then "remove:entry-removed-index-empty" else "remove:entry-replaced"] else ["remove:entry-kept"]) ++
+                 (if r.1.maxLayer != s.ix.maxLayer then ["remove:max-layer-changed"] else []) ++
+                 (if (sortSet (r.1.dirty.filter (fun i => (getNode r.1.nodes i).isSome))).length >
+                      (sortSet ((s.ix.dirty.filter (fun x => x != id)).filter (fun i => (getNode r.1.nodes i).isSome))).length
+                  then ["remove:neighbour-rewritten"] else ["remove:no-neighbour-rewritten"]) ++
+                 (if pickOk (eraseKey s.ix.nodes id) (pid, pl) then [] else (if s.ix.entry.1 == id && !r.1.nodes.isEmpty then ["remove:PICK-NOT-ADMISSIBLE"] else []))
+          ({ s with ix := r.1 }.hit tags, s!"{r.2} {showState r.1 (rc != "1")}")
       | _, _, _ => (s, "bad-op")
   | ["edit", id, layer, lists] =>
       match id.toNat?, layer.toNat?, parseLists lists with
@@ -182,7 +236,15 @@ def step (s : St) (line : String) : St × String :=
       match id.toNat?, layer.toNat?, parseLists lists, pid.toNat?, pl.toNat? with
       | some id, some layer, some ls, some pid, some pl =>
           let r := insertAbs s.ix id ⟨layer, ls⟩ s.edits (pid, pl) (valid == "1")
-          ({ s with ix := r.1, edits := [] }, s!"{r.2} {showState r.1 (rest != ["0"])}")
+          let tags : List String :=
+            if valid != "1" then ["insert:invalid"]
+            else if (getNode s.ix.nodes id).isSome then ["insert:exists"]
+            else if s.ix.nodes.isEmpty then ["insert:first-node"]
+            else (if (getNode s.ix.nodes s.ix.entry.1).isNone then ["insert:entry-self-heal"] else []) ++
+                 (if r.1.entry.1 == id then ["insert:entry-promoted"] else ["insert:entry-kept"]) ++
+                 (if s.ix.removed.contains id then ["insert:tombstone-cleared"] else []) ++
+                 (if s.edits.isEmpty then ["insert:no-neighbour-rewritten"] else ["insert:neighbours-rewritten"])
+          ({ s with ix := r.1, edits := [] }.hit tags, s!"{r.2} {showState r.1 (rest != ["0"])}")
       | _, _, _, _, _ => (s, "bad-op")
   | ["capture"] =>
       match capture s.ix with
@@ -198,11 +260,30 @@ def step (s : St) (line : String) : St × String :=
       let ix := match s.snap with
         | some sn => commit s.ix sn
         | none => s.ix
-      ({ s with dur := d, ix := ix, pendingW := [], snap := none }, showState ix (lists == "1"))
+      let tag := match s.snap with
+        | some sn => if commitClears s.ix sn then "window:commit-clears-marks" else "window:commit-keeps-marks"
+        | none => "window:nothing-pending"
+      ({ s with dur := d, ix := ix, pendingW := [], snap := none }.hit [tag], showState ix (lists == "1"))
   | ["durable"] => (s, showDurable s.dur)
   | ["writes"] =>
       let ws := wrapperWrites s.ix
-      (s, if ws.isEmpty then "-" else ",".intercalate (ws.map writeTag))
+      let tags := (if flushPending s.ix then ["flush:pending"] else ["flush:nothing-pending"]) ++
+                  (if (purgeWrites s.ix).isEmpty then [] else ["flush:purge-deletes"]) ++
+                  (if (s.ix.removed.any (fun i => (getNode s.ix.nodes i).isSome)) then ["flush:tombstone-of-reinserted-id-skipped"] else [])
+      (s.hit tags, if ws.isEmpty then "-" else ",".intercalate (ws.map writeTag))
+  | ["afterflush"] =>
+      let ix := afterFlush s.ix
+      ({ s with ix := ix }.hit ["flush:after"], showState ix true)
+  | ["create", mls] =>
+      match mls.toNat? with
+      | some mls => ({ s with ix := createS mls, dur := createD mls }.hit ["create"], showState (createS mls) true ++ " " ++ showDurable (createD mls))
+      | none => (s, "bad-op")
+  | ["closer", ms, q, a, b] =>
+      match parseMetric ms, intList? q, intList? a, intList? b with
+      | some m, some q, some a, some b =>
+          (s.hit [s!"closer:{ms}"], s!"{closer m q a b}")
+      | _, _, _, _ => (s, "bad-op")
+  | ["cov"] => (s, if s.cov.isEmpty then "-" else " ".intercalate (s.cov.map (fun p => s!"{p.1}={p.2}")))
   | ["dreset"] => ({ s with dur := {} }, "ok")
   | ["dput", key, bid, layer, dimok, fin, lists] =>
       match key.toNat?, bid.toNat?, layer.toNat?, parseLists lists with
@@ -225,8 +306,19 @@ def step (s : St) (line : String) : St × String :=
       match pid.toNat?, pl.toNat? with
       | some pid, some pl =>
           match load s.dur (pid, pl) with
-          | .ok ix => ({ s with ix := ix }, "ok " ++ showState ix true)
-          | .error _ => (s, "err:load")
+          | .ok ix =>
+              let ids := match s.dur.ids with | some l => l | none => []
+              let tag := if ids.isEmpty then "load:empty-ids"
+                else if ix.ids.length < ids.length then (if ix.nodes.isEmpty then "load:all-blobs-missing" else "load:missing-blobs-pruned")
+                else if ix.version != (match s.dur.metaObj with | some m => m.version | none => 0) then "load:dangling-entry-repaired"
+                else "load:plain"
+              let tags := [tag] ++ (match s.dur.metaObj with
+                | some m => (if clampLayers m.maxLayers != m.maxLayers then ["load:max-layers-clamped"] else []) ++
+                            (if ix.entry.2 != m.entry.2 && ix.entry.1 == m.entry.1 then ["load:entry-layer-clamped"] else [])
+                | none => [])
+              ({ s with ix := ix }.hit tags, "ok " ++ showState ix true)
+          | .error .noObject => (s.hit ["load:err-no-object"], "err:load")
+          | .error (.invalidBlob _) => (s.hit ["load:err-invalid-blob"], "err:load")
       | _, _ => (s, "bad-op")
   | ["consts"] =>
       (s, s!"MAX_EF_SEARCH={maxEfSearch} SEARCH_MAX_ATTEMPTS={searchMaxAttempts} F32_MAX_KEY={f32MaxKey}")
